@@ -5,7 +5,7 @@ SPEC = {
                 # the listener through the control message; only RS / RA pass the ICMPv6 filter
                 {"pkg": "internal/system", "test": "TestVerifRealOS", "newgo": True, "timeout": 300},
                 # real parallelism: listeners of several interfaces sharing one Context under floods of invalid messages
-                {"pkg": "internal/corerad", "test": "TestVerifParallel", "newgo": True, "timeout": 600, "arch386": []}],
+                {"pkg": "internal/corerad", "test": "TestVerifParallel", "newgo": True, "timeout": 600, "arch386": [], "env": {"VERIF_PAR": "listeners"}}],
     "extra_corr_modules": ["Corr.C06"],
     "rule": "scripted Conn.ReadFrom sequences fed to the real Advertiser.Run and Monitor.Run under testing/synctest: all 256 hop "
             "limits; runs of 1..12 consecutive invalid messages of each of the 4 NDP types (beyond the 5-retry budget) followed by "
